@@ -33,7 +33,7 @@ def parseRead (r : String) : Option (List UInt8 × Nat) :=
   | [s, c] => do
     let s ← unhex s
     let c ← c.toNat?
-    if c < 1 ∨ c > 1000000 then none else pure (s.map lower, c)
+    if c < 1 ∨ c > 9007199254741000 then none else pure (s.map lower, c)
   | _ => none
 
 def consStr : ConsOut → String
